@@ -198,7 +198,7 @@ GOOD_ENV = {"onb": "yes", "mode1": "signer", "uiver": [5, 4, 1], "echo": "t", "r
             "newpin": "ack", "mode2": "signer", "appver": [5, 4, 1]}
 
 
-def run_lifetime(scratch, tag, should, causes, v1, rng, start_env=None, plat="ledger"):
+def run_lifetime(scratch, tag, should, causes, v1, rng, start_env=None, plat="ledger", client_lines=None):
     """Fork one manager process. Returns (events, info)."""
     env.setup()
     e = dict(GOOD_ENV)
@@ -224,7 +224,14 @@ def run_lifetime(scratch, tag, should, causes, v1, rng, start_env=None, plat="le
         if plat != "tcp" and rng.random() < 0.4:
             e.update(mode1="boot")       # starts locked: unlock, exit to the signer, then serve
     steps, lines_, labels = [], [], []
+    given = list(client_lines or [])
     for c in causes:
+        if c == "client" and given:
+            label, line = given.pop(0)
+            lines_.append(line)
+            steps.append({})
+            labels.append(label)
+            continue
         line, step, label = concrete_step(c, rng, v1)
         lines_.append(line)
         steps.append(step)
